@@ -13,6 +13,8 @@ import (
 
 	"github.com/cloudwego/hertz/pkg/app"
 	"github.com/cloudwego/hertz/pkg/network/standard"
+	"github.com/cloudwego/hertz/pkg/protocol"
+	"github.com/cloudwego/hertz/pkg/protocol/consts"
 	"github.com/cloudwego/hertz/pkg/protocol/http1/resp"
 )
 
@@ -89,7 +91,50 @@ func runProg(ctx *app.RequestContext, toks []string) {
 	}
 }
 
-// respw <M:method:ver:close> prog… / <M:…> prog… -> <all bytes written> N <k> {status clen(-1 chunked/none) bodyhex | E}
+// respHdrDump: the response header state the writer starts from, in the token layout of op `resphdr`
+// (harness/c05.go) with the status line replaced by the status code's reason text:
+//
+//	reason server noDefaultDate date contentType(resolved) ctset contentLength contentEncoding
+//	contentLengthBytes connectionClose  <n> {k v}  <n> {trailer name}  <n> {cookie k v}
+func respHdrDump(ctx *app.RequestContext) []string {
+	h := &ctx.Response.Header
+	s := protocol.VerifRespHeaderDump(h)
+	out := []string{hx([]byte(consts.StatusMessage(h.StatusCode()))), hx(s.Server), b2i(s.NoDefaultDate), hx(currentDate()),
+		hx(h.ContentType()), b2i(len(s.ContentType) > 0), strconv.Itoa(s.ContentLength), hx(s.ContentEncoding),
+		hx(s.ContentLengthBytes), b2i(s.ConnectionClose)}
+	out = append(out, kvDump(s.H)...)
+	out = append(out, namesDump(s.Trailer)...)
+	out = append(out, kvDump(s.Cookies)...)
+	return out
+}
+
+// runProgDump runs the handler program and dumps the header state at the moment the writer takes over:
+// after the whole program, except when a hijacked chunked writer writes inside the handler (its first
+// Write sends the header block): then immediately before that CW token.
+func runProgDump(ctx *app.RequestContext, toks []string) []string {
+	for k, t := range toks {
+		if strings.HasPrefix(t, "CW:") {
+			early := false
+			for _, o := range strings.Split(t[3:], ",") {
+				if strings.HasPrefix(o, "w") {
+					early = true
+				}
+			}
+			if early {
+				runProg(ctx, toks[:k])
+				d := respHdrDump(ctx)
+				runProg(ctx, toks[k:])
+				return d
+			}
+		}
+	}
+	runProg(ctx, toks)
+	return respHdrDump(ctx)
+}
+
+// respw <M:method:ver:close> prog… / <M:…> prog… ->
+//
+//	<all bytes written> N <k> {status clen(-1 chunked/none) bodyhex | E} D <k> {respHdrDump}   (one dump per handler invocation)
 func opRespW(a []string) []string {
 	var progs []respProg
 	for _, t := range a {
@@ -111,10 +156,11 @@ func opRespW(a []string) []string {
 		stream = append(stream, "\r\n"...)
 	}
 	i := 0
+	var dumps [][]string
 	eng := newEngine(srvCfg{})
 	eng.Any("/*p", func(c context.Context, ctx *app.RequestContext) {
 		if i < len(progs) {
-			runProg(ctx, progs[i].toks)
+			dumps = append(dumps, runProgDump(ctx, progs[i].toks))
 		}
 		i++
 	})
@@ -171,6 +217,10 @@ func opRespW(a []string) []string {
 	}
 	out = append(out, "N", strconv.Itoa(k))
 	out = append(out, nh...)
+	out = append(out, "D", strconv.Itoa(len(dumps)))
+	for _, d := range dumps {
+		out = append(out, d...)
+	}
 	return out
 }
 
@@ -275,6 +325,35 @@ func genRespProg(rng *Rng, last bool) []string {
 	}
 	if rng.Intn(6) == 0 {
 		toks = append(toks, "H:"+hx([]byte("X-App"))+":"+hx([]byte("v w")))
+	}
+	// framing headers set by the handler itself through Header.Set, before or after the body is set:
+	// Content-Length equal to / different from the body length, occasionally unparseable; Transfer-Encoding
+	if rng.Intn(4) == 0 {
+		var v string
+		switch rng.Intn(8) {
+		case 0:
+			v = pick(rng, []string{"x", "", "-1", "5x", " 5", "99999999999999999999"}) // ParseContentLength fails: ignored
+		case 1, 2:
+			v = strconv.Itoa(size)
+		case 3:
+			v = strconv.Itoa(size + 1 + rng.Intn(3))
+		case 4:
+			v = strconv.Itoa(rng.Intn(size + 1))
+		case 5:
+			v = "0"
+		default:
+			v = strconv.Itoa(rng.Intn(12))
+		}
+		h := "H:" + hx([]byte(pick(rng, []string{"Content-Length", "Content-Length", "content-length", "CONTENT-LENGTH"}))) + ":" + hx([]byte(v))
+		if rng.Intn(8) == 0 {
+			h = "H:" + hx([]byte(pick(rng, []string{"Transfer-Encoding", "transfer-encoding"}))) + ":" + hx([]byte(pick(rng, []string{"chunked", "identity"})))
+		}
+		// toks[0] = M, toks[1] = ST (the status is always set first): insert anywhere after them
+		at := 2 + rng.Intn(len(toks)-1)
+		toks = append(toks[:at], append([]string{h}, toks[at:]...)...)
+		if rng.Intn(6) == 0 { // a second one: the last parseable value wins
+			toks = append(toks, "H:"+hx([]byte("Content-Length"))+":"+hx([]byte(strconv.Itoa(rng.Intn(12)))))
+		}
 	}
 	return toks
 }
